@@ -28,6 +28,7 @@ type CallRec struct {
 	DisableGC bool
 	Resp      *change.Pack
 	Err       error
+	Lost      bool // the response was never applied by the client
 }
 
 // MClient performs, step by step, what client.Client does around a document.
